@@ -527,3 +527,39 @@ func ZZ_C01_BigVector(q, entry, shape int) {
 	vrt.Assert(tr.unflushed == 0, "c02-flushed-after-last-byte")
 	vrt.Reach("c01-big-vector-done")
 }
+
+// ZZ_C10_EmptyWrite: an empty payload that is a view of a caller-owned scratch buffer whose capacity is a pool size
+// class (scratch[:0], cap 1024). After it was "sent" the sender recycles what it was given; with the precise pool
+// model the next write may receive any pooled buffer as its private copy. The caller keeps using its scratch
+// buffer: the next payload must still arrive intact (the caller's memory must never have entered the pool).
+func ZZ_C10_EmptyWrite(q, entry int) {
+	tr := newZZTransport()
+	pl := NewPipeline()
+	ex := &zzManualExecutor{}
+	ch := newChannelWith(context.Background(), pl, tr, ex, 1, q, true).(*channel)
+	pl.(*pipeline).channel = ch
+	scratch := make([]byte, 8, 1024)
+	n, err := zzCallR(ch, entry, context.Background(), scratch[:0])
+	vrt.Assert(err == nil && n == 0, "c10-accepted")
+	ex.runAll()
+	b := []byte{0x42, vrt.Byte(), vrt.Byte()}
+	want := append([]byte(nil), b...)
+	n2, err2 := ch.Write1(b)
+	vrt.Assert(err2 == nil && n2 == 3, "c10-accepted")
+	for i := range b {
+		b[i] = 0xEE
+	}
+	// the caller goes on using its scratch buffer
+	full := scratch[:cap(scratch)]
+	for i := 0; i < 8; i++ {
+		full[i] = 0xDD
+	}
+	ex.runAll()
+	vrt.Assert(len(tr.log) == len(want), "c10-payload-whole")
+	for i := range want {
+		if i < len(tr.log) {
+			vrt.Assert(tr.log[i] == want[i], "c10-payload-unmodified")
+		}
+	}
+	vrt.Reach("c10-empty-write-done")
+}
